@@ -23,6 +23,8 @@ type Ctx struct {
 	Sum   map[string]*apo.Summarizer
 	// Overlay: file contents replacing the working tree's (self-test of seeded changes)
 	Overlay map[string][]byte
+	// Shared: programs already loaded by a sibling context with the same overlay (kyverif try)
+	Shared map[string]*core.Prog
 }
 
 func NewCtx(prop, tier string) *Ctx {
@@ -37,7 +39,16 @@ func (c *Ctx) Prog(cfg string) *core.Prog {
 	if p, ok := c.progs[cfg]; ok {
 		return p
 	}
-	p, err := core.Load(core.Configs[cfg], c.Overlay)
+	var p *core.Prog
+	var err error
+	if sp, ok := c.Shared[cfg]; ok && sp != nil {
+		p = sp
+	} else {
+		p, err = core.Load(core.Configs[cfg], c.Overlay)
+		if err == nil && c.Shared != nil {
+			c.Shared[cfg] = p
+		}
+	}
 	if err != nil {
 		c.R.Fatalf("configuration %s does not load: %v", cfg, err)
 		c.progs[cfg] = nil
